@@ -190,7 +190,7 @@ def run_construction(task):
     for (param, pk, kind) in task["triples"]:
         w = W.family(fam)
         # build only what the object needs (its forward closure), not the object itself
-        names = [n for n in W.reachable(w, obj_name) if n != obj_name]
+        names = [n for n in W.reachable(w, obj_name, with_installed_services=False) if n != obj_name]
         m = _build_subset(w, names)
         kw = kwargs_for(m, w, obj_name)
         kw[param] = make_bad(_with_obj(m, w, obj_name), w, obj_name, param, pk, kind)
